@@ -459,8 +459,8 @@ func (c *Corpus) attribute(out string) {
 	}
 	for _, line := range strings.Split(out, "\n") {
 		line = strings.TrimRight(line, " \t")
-		if line == "" || strings.HasPrefix(line, "#") {
-			continue
+		if line == "" || strings.HasPrefix(line, "#") || strings.HasPrefix(line, "\t") || strings.HasPrefix(line, "  ") {
+			continue // blank, package header, or continuation line of a multi-line diagnostic
 		}
 		m := designRe.FindStringSubmatch(line)
 		if m != nil && by[m[1]] != nil {
